@@ -287,9 +287,9 @@ def legs(tier):
     out.append(Leg('states_N1', fn_states, [[1, i] for i in range(48)], chunk=6, src_states=48, bound='all 48 tableaux x 8 generators'))
     out.append(Leg('states_N2', fn_states, [[2, i] for i in range(34560)], chunk=80, src_states=34560,
                    bound='all 34560 tableaux x (32 generators + 16 masked 1-qubit generators)'))
-    if tier != 'quick':
-        out.append(Leg('states_N3', fn_states_n3, [[2000, lo, lo + 20] for lo in range(0, 2000, 20)], chunk=1, exhaustive=False, supplementary=True,
-                       bound='2000 distinct N=3 density matrices (BFS from constructors) x all 128 generators'))
+    nb = 204 if tier == "quick" else 4002
+    out.append(Leg('states_N3', fn_states_n3, [[nb, lo, lo + 20] for lo in range(0, nb, 20)], chunk=1, exhaustive=False, supplementary=True,
+                   bound='%d distinct N=3 tableaux (BFS from constructors, all ranks) x all 128 generators' % nb))
     from .c03 import fn_rotmap
     out.append(Leg('rotation_map_histories', fn_rotmap, [[N, gi] for N in (1, 2, 3) for gi in range(4 ** N)], chunk=4,
                    bound='all Hermitian generators N<=3: clifford_rotation_map(G) vs rotate_by(G) vs U^dag P U on the whole group; history: mutate the returned map in place, request it again'))
